@@ -351,7 +351,7 @@ def cut(S: bytes, cuts):
     return out
 
 
-def segmentations(S: bytes, bounds, rng, double: bool, nrand: int):
+def segmentations(S: bytes, bounds, rng, double: bool, nrand: int, maxwork: int = 3_000_000):
     """yield (name, cuts tuple)"""
     n = len(S)
     yield "whole", ()
@@ -368,8 +368,9 @@ def segmentations(S: bytes, bounds, rng, double: bool, nrand: int):
                     yield "double", (i, j)
     else:
         near = sorted({b + d for b in bounds for d in (-2, -1, 0, 1, 2, 3, 4, 9, 10, 11) if 0 < b + d < n})
-        if len(near) > 160:
-            near = sorted(rng.sample(near, 160))
+        lim = max(10, min(160, maxwork // n))
+        if len(near) > lim:
+            near = sorted(rng.sample(near, lim))
         for i in near:
             yield "single-boundary", (i,)
         if double:
@@ -391,14 +392,14 @@ def frame_bounds(frames):
     return b
 
 
-def check_stream(frames, cfg, rec, rng, ctx: str, double: bool, nrand: int = 3, witness_extra=None):
+def check_stream(frames, cfg, rec, rng, ctx: str, double: bool, nrand: int = 3, witness_extra=None, maxwork: int = 3_000_000):
     """frames: list of byte strings (frame or arbitrary chunk) whose concatenation is the stream."""
     S = b"".join(frames)
     bounds = frame_bounds(frames)
     base = None
     nseg = 0
     reported = set()
-    for name, cuts in segmentations(S, bounds, rng, double, nrand):
+    for name, cuts in segmentations(S, bounds, rng, double, nrand, maxwork):
         segs = cut(S, cuts)
         out = run_reader(S, cfg, segs)
         nseg += 1
@@ -415,15 +416,17 @@ def check_stream(frames, cfg, rec, rng, ctx: str, double: bool, nrand: int = 3, 
             rec.count("aiohttp-outcome:" + ("no-error" if out.err is None else str(out.err[1])))
             if out.pauses:
                 rec.count("reader-paused-transport")
-            rec.maxi("retained-bytes", out.max_retained)
-            rec.maxi("inflate-output", out.max_inflate)
+            if cfg[2]:
+                rec.maxi("retained-bytes-minus-limit", max(out.max_retained - cfg[2], 0))
+                rec.maxi("inflate-output-minus-limit", max(out.max_inflate - cfg[2], 0))
         else:
             if out.key() != base.key():
                 what = "messages" if tuple(out.msgs) != tuple(base.msgs) else "error"
                 viol.append((f"segmentation-dependent:{what}", f"whole feed: {len(base.msgs)} msgs err={base.err}; cuts {cuts[:6]}: {len(out.msgs)} msgs err={out.err} {out.errmsg!r}"))
             if out.pauses:
                 rec.count("reader-paused-transport")
-            rec.maxi("retained-bytes", out.max_retained)
+            if cfg[2]:
+                rec.maxi("retained-bytes-minus-limit", max(out.max_retained - cfg[2], 0))
         for mech, summ in viol:
             if mech in reported:
                 rec.violation_counts[mech] = rec.violation_counts.get(mech, 0) + 1
@@ -641,7 +644,7 @@ def rand_stream(rng):
     return bytes(out[:148])
 
 
-def valid_stream(rng):
+def valid_stream(rng, close=True):
     """random valid frame sequence (frames list), short"""
     fr = []
     masked = rng.random() < 0.5
@@ -664,7 +667,7 @@ def valid_stream(rng):
             fr.append(F(op if i == 0 else CONT, p, fin=i == len(parts) - 1, rsv1=comp and i == 0, mask=m()))
             if i < len(parts) - 1 and rng.random() < 0.3:
                 fr.append(F(PING, b"", mask=m()))
-    if rng.random() < 0.4:
+    if close and rng.random() < 0.4:
         fr.append(F(CLOSE, struct.pack(">H", rng.choice(CLOSE_CODES_VALID)) + rng.choice([b"", b"bye"]), mask=m()))
     return fr
 
@@ -676,13 +679,14 @@ def valid_stream(rng):
 def shards(tier, seed):
     out = []
     if tier == "quick":
-        for i in range(8):
-            out.append({"kind": "classes", "sub": i, "of": 8, "double_cfgs": 1})
+        for i in range(6):
+            out.append({"kind": "classes", "sub": i, "of": 6, "double_cfgs": 1})
         for i in range(2):
-            out.append({"kind": "sizes", "sub": i, "of": 2, "double_cfgs": 1})
+            out.append({"kind": "sizes", "sub": i, "of": 2, "double_cfgs": 2})
         for i in range(3):
-            out.append({"kind": "random", "sub": i, "n": 260, "double_every": 12})
-        out.append({"kind": "long", "sub": 0, "of": 1, "big": False})
+            out.append({"kind": "random", "sub": i, "n": 900, "double_every": 6})
+        for i in range(3):
+            out.append({"kind": "long", "sub": i, "of": 3, "big": False})
         for i in range(2):
             out.append({"kind": "codes", "sub": i, "of": 2})
     else:
@@ -834,13 +838,13 @@ def run_long(spec, rec, rng):
     for masked in (False, True):
         m = lambda: mk(rng, masked)  # noqa: E731
         for nfr in (1100, 3000):
-            jobs.append((f"empty-fragment-flood-{nfr}", [F(TEXT, b"", fin=False, mask=m())] + [F(CONT, b"", fin=False, mask=m()) for _ in range(nfr)] + [F(CONT, b"end", mask=m())], CONFIGS))
+            jobs.append((f"empty-fragment-flood-{nfr}", [F(TEXT, b"", fin=False, mask=m())] + [F(CONT, b"", fin=False, mask=m()) for _ in range(nfr)] + [F(CONT, b"end", mask=m())], CONFIGS if nfr < 2000 or spec.get("big") else CONFIGS[::3]))
         jobs.append(("tiny-fragment-flood-2000", [F(BIN, b"x", fin=False, mask=m())] + [F(CONT, b"y", fin=False, mask=m()) for _ in range(2000)] + [F(CONT, b"z", mask=m())], CONFIGS))
         jobs.append(("ping-flood-1500", [F(PING, b"p%d" % i, mask=m()) for i in range(1500)], CONFIGS[:4]))
         many = []
         for i in range(400):
-            many += valid_stream(rng)[:3]
-        jobs.append(("many-valid-frames", [f for f in many if f[0] & 0x0F != CLOSE], [c for c in CONFIGS if c[2] in (0, DEFAULT_MAX)]))
+            many += valid_stream(rng, close=False)
+        jobs.append(("many-valid-frames", many, [c for c in CONFIGS if c[2] in (0, DEFAULT_MAX)]))
         big = rng.randbytes(70000)
         jobs.append(("frame-70000", [F(BIN, big, mask=m()), F(TEXT, b"after", mask=m())], CONFIGS))
         jobs.append(("frame-65535-65536", [F(BIN, big[:65535], mask=m()), F(BIN, big[:65536], mask=m())], [c for c in CONFIGS if c[2] in (0, DEFAULT_MAX)]))
@@ -857,12 +861,16 @@ def run_long(spec, rec, rng):
                 jobs.append((f"default-single-{d:+d}", [F(BIN, body[:n], mask=m()), F(TEXT, b"after", mask=m())], [c for c in CONFIGS if c[2] == DEFAULT_MAX]))
                 h = n // 2
                 jobs.append((f"default-two-fragments-{d:+d}", [F(BIN, body[:h], fin=False, mask=m()), F(CONT, body[h:n], mask=m())], [c for c in CONFIGS if c[2] == DEFAULT_MAX]))
+    import time
+
     for i, (name, frames, cfgs) in enumerate(jobs):
         if i % spec["of"] != spec["sub"]:
             continue
         rec.count("long:" + name.rstrip("0123456789-+"))
+        t0 = time.time()
         for cfg in cfgs:
-            check_stream(frames, cfg, rec, rng, "long:" + name, double=False, nrand=3)
+            check_stream(frames, cfg, rec, rng, "long:" + name, double=False, nrand=3, maxwork=400_000 if "default" in name else 3_000_000)
+        rec.maxi("ms:long:" + name.rstrip("0123456789-+"), int((time.time() - t0) * 1000))
 
 
 def replay(witness, rec):
